@@ -75,12 +75,12 @@ func runThorough(r *Result, id, repo, verif string) map[string]any {
 	b, _ := json.Marshal(list)
 	_ = b
 	return map[string]any{
-		"selftest_variants":           len(files),
-		"selftest_detected":           det,
-		"selftest_skipped":            skipped,
-		"selftest_results":            list,
-		"disagreements_checked":       len(files),
-		"selftest_rule":               "each variant is an overlay edit of /repo that still type-checks and breaks exactly one rule instance; the checker must report a violation whose key contains the expected rule instance",
+		"selftest_variants":     len(files),
+		"selftest_detected":     det,
+		"selftest_skipped":      skipped,
+		"selftest_results":      list,
+		"disagreements_checked": len(files),
+		"selftest_rule":         "each variant is an overlay edit of /repo that still type-checks and breaks exactly one rule instance; the checker must report a violation whose key contains the expected rule instance",
 	}
 }
 
